@@ -4,19 +4,21 @@ Alphabet.  cdef classes generated from attribute-type lists:
   flat      every list of <= 2 attributes over the type alphabet {int, double, object, str, list, struct, int[3], another
             cdef class, int* pointer} (thorough: + bint, bytes) and every list of 3 attributes over {int, object, str,
             double} (thorough + list); declaration order is the reverse of the alphabetical (= pickling) order;
-  inherit   base with <= 1 attribute x derived class with <= 1 attribute over {int, object, str, list, struct, pointer}
+  inherit   base with <= 1 attribute x derived class with <= 1 attribute over {int, double, object, str, list, struct, pointer}
             (depth 2; the derived attribute sorts before the base attribute);
   options   auto_pickle in {unset, True, False} x {int, object, struct, pointer attribute}, `cdef dict __dict__`,
             __cinit__ (with and without arguments), user __reduce__;
   each class also through a Python subclass carrying an instance __dict__.
 Values: per type a small boundary set (0, -1, 2**31-1; 0.5, nan, -0.0; None, tuple, 2**62; non-ASCII str; nested list;
-None for every object slot), complete product per class.
+None for every object slot), complete product per class; plus reference cycles through every object / list typed
+attribute (own or inherited, incl. derived classes that add only C attributes): obj.a = obj, [obj], {'k': obj}.
 Operations: pickle.dumps/loads for EVERY protocol 0-5, copy.copy, copy.deepcopy.
 Layout-changed unpickling: pickles produced by module A are loaded in a fresh process against module B (same module and
 class names) where exactly one attribute was renamed / added (before, between, after) / removed, an inherited base
 attribute was renamed, or only the declaration order was permuted.
 Oracle (intrinsic): a class whose attributes are all convertible must round-trip with the same type, every attribute
-value equal (type+repr, nan/-0.0 aware), __dict__ equal, list attributes shared by copy.copy and duplicated by deepcopy;
+value equal (type+repr, nan/-0.0 aware), __dict__ equal, list attributes shared by copy.copy and duplicated by deepcopy,
+cycles preserved (copy.a is copy / copy.a[0] is copy, no RecursionError);
 a class with a pointer attribute, a struct attribute without auto_pickle(True), a __cinit__, or auto_pickle(False) with
 C attributes must raise TypeError on every operation (never lose state silently); auto_pickle(True) on a pointer class
 must be rejected at compile time; a user __reduce__ must be the one that runs; changed layouts must raise
@@ -53,7 +55,7 @@ T_Q = ['int', 'double', 'object', 'str', 'list', 'struct', 'arr', 'cref', 'ptr']
 T_T = T_Q + ['bint', 'bytes']
 T3_Q = ['int', 'object', 'str', 'double']
 T3_T = T3_Q + ['list']
-T_INH = ['int', 'object', 'str', 'list', 'struct', 'ptr']
+T_INH = ['int', 'double', 'object', 'str', 'list', 'struct', 'ptr']
 NAMES = {0: [], 1: ['a'], 2: ['b', 'a'], 3: ['c', 'a', 'b']}
 
 PRELUDE = '''
@@ -267,6 +269,54 @@ def sweep(cns, rns, work, cfg):
                     mism.append((key, '%s %s of %s %s values %r: expected %s, got %s (%s); state before %s after %s' % (
                         op, variant, cname, attrs, combo, exp, got, problem, short(before),
                         short(_state(o2, attrs)) if got == 'ok' else '-'), {'op': op, 'variant': variant, 'values': list(combo)}))
+    # ---- reference cycles through every object-typed attribute (own or inherited): obj.a = obj / [obj] / {'k': obj}
+    if ok is True and not user_reduce:
+        for variant in ('cdef', 'pysub'):
+            cls = cns[cname] if variant == 'cdef' else cns['P_' + cname]
+            for ci, (can, cat) in enumerate(attrs):
+                if cat not in ('object', 'list'):
+                    continue
+                for shape in (('self', 'list', 'dict') if cat == 'object' else ('list',)):
+                    for op in OPS:
+                        o = cls()
+                        for (an, at) in attrs:
+                            if an == can:
+                                continue
+                            ve = VALUES[at][-1]
+                            if ve == 'PTR':
+                                getattr(o, '_setp_' + an)()
+                            else:
+                                setattr(o, an, _mkval(cns, ve))
+                        cyc = o if shape == 'self' else ([o] if shape == 'list' else {'k': o})
+                        setattr(o, can, cyc)
+                        pick = (lambda v: v) if shape == 'self' else ((lambda v: v[0]) if shape == 'list' else (lambda v: v['k']))
+                        problem = None
+                        try:
+                            o2 = _do(op, o)
+                            v2 = getattr(o2, can)
+                            if type(o2) is not type(o):
+                                problem = 'type'
+                            elif op == 'copy':
+                                if v2 is not cyc:
+                                    problem = 'copy-not-shallow'
+                            elif pick(v2) is not o2 or (shape != 'self' and v2 is cyc):
+                                problem = 'cycle-not-preserved'
+                            elif [canon(getattr(o2, an)) for an, at in attrs if an != can and at != 'ptr'] != \
+                                    [canon(getattr(o, an)) for an, at in attrs if an != can and at != 'ptr']:
+                                problem = 'attribute-values'
+                            got = 'ok'
+                        except BaseException as e:
+                            if isinstance(e, (KeyboardInterrupt, SystemExit)):
+                                raise
+                            got = type(e).__name__
+                            problem = 'cycle-raises:' + got
+                        evals += 1
+                        hashes.add(hash((fam, tuple(at for an, at in attrs), variant, 'cycle', ci, shape, op if op[:6] != 'pickle' else 'pickle')))
+                        cnt['cycle'] = cnt.get('cycle', 0) + 1
+                        if problem:
+                            key = 'c29|%s|cycle|%s' % (fam if fam in ('flat', 'inherit') else 'options:' + fam, problem)
+                            mism.append((key, '%s %s of %s %s with cycle %s through %s: %s' % (op, variant, cname, attrs, shape, can, problem),
+                                         {'op': op, 'variant': variant, 'cycle': [can, shape]}))
     return evals, mism, hashes, cnt
 
 
